@@ -549,9 +549,10 @@ fn judge(plan: &CrashPlan, ex: &Exec, placement: &[(usize, u32)], cache: &mut Ha
                 // L2 images are L1 images of an earlier position and are normally cached already
                 let image = if eff == w { img.clone() } else { ex.disk.image_at(eff, Loss::L1) };
                 cache.insert(key, reopen(image));
-                cx.fault(match loss { Loss::L1 => "crash_image_L1", Loss::L2 => "crash_image_L2" });
+                cx.fault("distinct_crash_image_reopened");
             }
             judged += 1;
+            cx.fault(match loss { Loss::L1 => "crash_judged_L1", Loss::L2 => "crash_judged_L2" });
             check_image(plan, cache.get(&key).unwrap(), &expected_obs, lo_state, hi_state, in_progress, placement, &format!("{loss:?} crash after disk op {w}/{n}"))?;
         }
         if l3 && w > last_sync[w] && rng.chance(1, 4) {
